@@ -16,6 +16,7 @@ def touch_workflow(endpoints, graph, spec_hashes):
 
         spec_hashes.update(target)
         for path in target.flattened_outputs():
+            Path(path).parent.mkdir(parents=True, exist_ok=True)
             Path(path).touch(exist_ok=True)
 
     for target in endpoints:
